@@ -338,6 +338,13 @@ def r15_hash_eq(ctx):
                         f'default value {unparse(el)} is a mutable, unhashable object: a frozen default message cannot be hashed '
                         '(and all messages share one list)', construct=f'{c.qname}::defaults::unhashable')
     ctx.floor('R15.5-defaults', n, 20)
+    r15_canonical(ctx)
+
+
+def r15_canonical(ctx):
+    """Every way of making a message leaves it in the one canonical form: sequence-valued attributes are tuples and always
+    present (an unknown meta message made without a payload has data == (), not a missing attribute) - repr, ==, hash and the
+    copies all read vars()."""
     # decoders/constructors normalise sequences to tuples
     um = ctx.p.cls(META, 'UnknownMetaMessage')
     init = um.methods.get('__init__')
